@@ -42,12 +42,18 @@ def build_case(P, Q, keyQ, depth, cap, plans=(), keyP=key_identity, temporal=Tru
     nP, nQ = ViewNames(shared, keyP), ViewNames(shared, keyQ)
     sP, sQ = IoSer(P, nP, split_intervals), IoSer(Q, nQ, split_intervals)
     try:
-        rQ = sQ.render()
-        # PDDL's universal supertype `object` exists in the re-read problem only: it denotes all objects on both sides
-        extra = []
-        if "<unmapped:object>" in shared.t["ty"]:
-            extra = [gpair(gn(shared.t["ty"]["<unmapped:object>"]), glist([gn(nP.obj(o)) for o in P.all_objects]))]
-        rP = sP.render(extra)
+        # PDDL's universal supertype `object` may be materialised as a user type on one side only (the re-read
+        # problem, or one of the two readers): there it denotes all objects, so it is given that meaning on the other
+        tyP = {keyP("ty", t) for t in P.user_types}
+        tyQ = {keyQ("ty", t) for t in Q.user_types}
+        extraP, extraQ = [], []
+        for root in ("object", "<unmapped:object>"):
+            if root in tyQ and root not in tyP:
+                extraP.append(gpair(gn(shared.id("ty", root)), glist([gn(nP.obj(o)) for o in P.all_objects])))
+            if root in tyP and root not in tyQ:
+                extraQ.append(gpair(gn(shared.id("ty", root)), glist([gn(nQ.obj(o)) for o in Q.all_objects])))
+        rP = sP.render(extraP)
+        rQ = sQ.render(extraQ)
         mP, kP = sP.metric()
         mQ, kQ = sQ.metric()
         tP = sP.tstruct() if temporal else "{| ts_actions := []; ts_teffs := []; ts_tgoals := [] |}"
